@@ -459,6 +459,8 @@ func runStack(id string, toks []string) (res string) {
 			} else {
 				emit(fmt.Sprintf("PSPLIT=%d/%s", r.status, other))
 			}
+		case "SRPMANY":
+			emit(w.srpMany(p[1]))
 		case "STALL":
 			emit(w.stalledSubscriber(p[1], p[2], p[3], p[4]))
 		case "STORM":
@@ -1304,4 +1306,65 @@ func (w *world) stalledSubscriber(cn, secs, ns, sz string) string {
 		return fmt.Sprintf("STALL=only-%d-of-%d", next-1, n)
 	}
 	return "STALL=ok"
+}
+
+// srpMany: SRPMANY:<n>   n pair-setup exchanges M1..M4 with the right code on n fresh connections (several at a time): the
+// accessory's random SRP key differs every time, about one in 256 has a leading zero byte; every exchange must succeed.
+func (w *world) srpMany(ns string) string {
+	n, _ := strconv.Atoi(ns)
+	type res struct {
+		ok    bool
+		short bool
+		what  string
+	}
+	jobs := make(chan int, n)
+	out := make(chan res, n)
+	for i := 0; i < n; i++ {
+		jobs <- i
+	}
+	close(jobs)
+	for k := 0; k < 12; k++ {
+		go func() {
+			for range jobs {
+				cc, err := dial(w.port)
+				if err != nil {
+					out <- res{false, false, "noconn"}
+					continue
+				}
+				s := &setupRun{cc: cc}
+				m, st, err := s.m1()
+				if err != nil || st != 200 || len(m[tErr]) > 0 {
+					cc.c.Close()
+					out <- res{false, false, "start-refused"}
+					continue
+				}
+				short := len(s.B) < 384 || s.B[0] == 0
+				m, st, err = s.m3(w.code(), nil, false, false)
+				cc.c.Close()
+				good := err == nil && st == 200 && len(m[tErr]) == 0 && len(s.notes) > 0 && s.notes[len(s.notes)-1] == "M2ok"
+				what := ""
+				if !good {
+					what = fmt.Sprintf("proof-refused(B:%d-bytes,first:%02x,last:%02x)", len(s.B), s.B[0], s.B[len(s.B)-1])
+				}
+				out <- res{good, short, what}
+			}
+		}()
+	}
+	bad, shorts, first := 0, 0, ""
+	for i := 0; i < n; i++ {
+		r := <-out
+		if r.short {
+			shorts++
+		}
+		if !r.ok {
+			bad++
+			if first == "" {
+				first = r.what
+			}
+		}
+	}
+	if bad > 0 {
+		return fmt.Sprintf("SRPMANY=%d-of-%d-failed:%s", bad, n, first)
+	}
+	return "SRPMANY=ok"
 }
